@@ -6,6 +6,8 @@
   valid input and every bucket size.  The other kinds are compared with the same
   specification by the correspondence streams (see DESIGN.md §8 C01, "partial").
 -/
+import CSD.Generated.Bodies
+import CSD.Model.SourceText
 import CSD.Lemmas.PFCMeta
 import CSD.Lemmas.HashBlocks
 import CSD.Lemmas.HashRP
@@ -135,5 +137,29 @@ example : Hash.accepted (Hash.build 3 [[0x61], [0x62], [0x63]]).tsize = true ∧
 /-- Non-vacuity: a concrete valid dictionary (the hypotheses are satisfiable), and
 what the theorems say about it. -/
 example : validDict [[0x61, 0x62], [0x61, 0x62, 0x63], [0x62]] = true := by decide
+
+/-- The models this file's theorems are about were written against the current text of the C++
+functions they mirror (`CSD/Generated/Bodies.lean` is re-extracted from the sources on every run,
+`CSD/Model/SourceText.lean` is what was reviewed): an edit of one of these functions breaks this
+obligation even if no generated input tells the behaviours apart. -/
+theorem models_match_source_text :
+    Generated.body_PFC_ctor = SourceText.body_PFC_ctor ∧
+    Generated.body_PFC_locate = SourceText.body_PFC_locate ∧
+    Generated.body_PFC_locateBucket = SourceText.body_PFC_locateBucket ∧
+    Generated.body_PFC_getHeader = SourceText.body_PFC_getHeader ∧
+    Generated.body_PFC_decodeNextString = SourceText.body_PFC_decodeNextString ∧
+    Generated.body_PFC_extract = SourceText.body_PFC_extract ∧
+    Generated.body_bitwisehash = SourceText.body_bitwisehash ∧
+    Generated.body_step_value = SourceText.body_step_value ∧
+    Generated.body_nearest_prime = SourceText.body_nearest_prime ∧
+    Generated.body_HashDAC_insert = SourceText.body_HashDAC_insert ∧
+    Generated.body_HASHRPDAC_locate = SourceText.body_HASHRPDAC_locate ∧
+    Generated.body_HASHRPDAC_extract = SourceText.body_HASHRPDAC_extract ∧
+    Generated.body_Blocks_search_before = SourceText.body_Blocks_search_before ∧
+    Generated.body_Blocks_locate = SourceText.body_Blocks_locate ∧
+    Generated.body_Blocks_extract = SourceText.body_Blocks_extract ∧
+    Generated.body_RePair_compareDAC = SourceText.body_RePair_compareDAC ∧
+    Generated.body_RePair_compareRule = SourceText.body_RePair_compareRule ∧
+    Generated.body_DAC_VLS_access = SourceText.body_DAC_VLS_access := ⟨rfl, rfl, rfl, rfl, rfl, rfl, rfl, rfl, rfl, rfl, rfl, rfl, rfl, rfl, rfl, rfl, rfl, rfl⟩
 
 end CSD.Props.C01
